@@ -361,6 +361,8 @@ def run(ctx):
     # ---- concurrent use of immutable Sets (code -> spec, same oracle)
     conc_phase(ctx, binp, "conc", (0, 1200 if th else 400, 60000 if th else 20000))
     if th:
+        conc_phase(ctx, binp, "conc-g32", (32, 600, 30000))
+        conc_phase(ctx, binp, "conc-g8", (8, 600, 60000))
         # auxiliary monitor: the same phase under the race detector (goroutines only read shared Sets)
         binr = ctx.go_build("c05", race=True)
         conc_phase(ctx, binr, "conc-race", (0, 200, 1500), race=True)
